@@ -1371,11 +1371,11 @@ func main() {
 			run(k)
 		}
 	}
-	nw := e.N(4, 40)
+	nw := e.N(4, 12)
 	for i := 0; i < nw; i++ {
 		run(kase{Kind: "world", Seed: e.Rng.U64() % 1000000, Ops: e.N(12, 24)})
 	}
-	nr := e.N(4, 40)
+	nr := e.N(4, 12)
 	for i := 0; i < nr; i++ {
 		run(kase{Kind: "rawpull", Seed: e.Rng.U64() % 1000000})
 	}
